@@ -122,6 +122,35 @@ def _factor_of(f, params: dict):
     return fac
 
 
+_CTXS: dict = {}
+
+
+def ctx_named(n: str):
+    """Contexts for `insert_round`, by name: the three IEEE formats, each also under another rounding mode
+    and with random bits (same format, another context: a stochastic target is refused everywhere)."""
+    import fpy2 as fp
+    if n not in _CTXS:
+        base, _, var = n.partition('_')
+        es, nbits = {'FP64': (11, 64), 'FP32': (8, 32), 'FP16': (5, 16)}[base]
+        if not var:
+            _CTXS[n] = getattr(fp, base)
+        elif var == 'SR':
+            _CTXS[n] = fp.IEEEContext(es, nbits, fp.RM.RNE, num_randbits=4)
+        else:
+            _CTXS[n] = fp.IEEEContext(es, nbits, getattr(fp.RM, var))
+    return _CTXS[n]
+
+
+def pre_list(name: str, f, params: dict):
+    """History element: the same listing asked first with a sibling parameter (same format, another context).
+    What a listing answers must not depend on what was listed before."""
+    if params.get('pre'):
+        try:
+            list_sites(name, f, dict(params, ctx=params['pre'], pre=None))
+        except Exception:
+            pass
+
+
 def strategy_call(name: str, f, where, params: dict, rule=None):
     if name in RULES:
         return (rule or new_rule(name)).apply(f, where, repeat=params.get('repeat', 1))
@@ -139,8 +168,7 @@ def strategy_call(name: str, f, where, params: dict, rule=None):
     if name == 'unfold_overflow':
         return fn(f, where, early_check=params.get('early_check', False))
     if name == 'insert_round':
-        import fpy2 as fp
-        return fn(f, getattr(fp, params.get('ctx', 'FP64')), where)
+        return fn(f, ctx_named(params.get('ctx', 'FP64')), where)
     return fn(f, where)
 
 
@@ -162,8 +190,7 @@ def listing_kwargs(name: str, params: dict, f=None) -> dict:
     if name == 'unfold_overflow':
         return {'early_check': params.get('early_check', False)}
     if name == 'insert_round':
-        import fpy2 as fp
-        return {'ctx': getattr(fp, params.get('ctx', 'FP64'))}
+        return {'ctx': ctx_named(params.get('ctx', 'FP64'))}
     return {}
 
 
@@ -195,7 +222,10 @@ def gen_params(r: random.Random, name: str) -> dict:
     if name in RULES:
         return {'repeat': r.choice([1, 1, 2, 3])}
     if name == 'insert_round':
-        return {'ctx': r.choice(['FP64', 'FP64', 'FP32', 'FP16'])}
+        base = r.choice(['FP64', 'FP64', 'FP32', 'FP16'])
+        c = base + r.choice(['', '', '', '_RTZ', '_RTP', '_SR'])
+        sib = base + r.choice(['', '_RTZ', '_SR', '_SR'])
+        return {'ctx': c, 'pre': sib if sib != c and r.random() < 0.6 else None}
     return {}
 
 
@@ -604,6 +634,7 @@ class World:
             # repeated unrolling of nested loops grows a program geometrically: bounded, not explored
             self.stats.count('undecided', 'program-too-large-to-rewrite-further')
             return
+        pre_list(name, f, params)
         try:
             sites, refs = list_sites(name, f, params)
         except Exception as e:
@@ -932,6 +963,7 @@ class World:
         ni = self.node(op['node'])
         f = self.nodes[ni]['fn']
         name = op['strategy']
+        pre_list(name, f, op.get('params') or {})
         try:
             sites, refs = list_sites(name, f, op.get('params') or {})
         except Exception as e:
